@@ -1,1 +1,287 @@
-fn main(){}
+//! C12 (sequential part): the C11 operation histories re-run under a tracking
+//! allocator: red zones, poisoning + quarantine of freed blocks (double free /
+//! use-after-free become deterministic), leak check at the end of every
+//! execution. The loom part lives in /verif/loomjob.
+use engine::c11::{self, Monitor};
+use engine::common::*;
+use serde_json::json;
+use std::alloc::{GlobalAlloc, Layout, System};
+use std::cell::{Cell, RefCell};
+use std::collections::HashMap;
+use std::sync::atomic::{AtomicU64, Ordering};
+
+const RZ: usize = 32;
+const RZ_BYTE: u8 = 0xA5;
+const POISON: u8 = 0xDD;
+
+struct Block {
+    size: usize,
+    align: usize,
+    freed: bool,
+}
+
+thread_local! {
+    static TRACK: Cell<bool> = const { Cell::new(false) };
+    static BUSY: Cell<bool> = const { Cell::new(false) };
+    static ERR: RefCell<Option<String>> = const { RefCell::new(None) };
+    // user pointer -> block
+    static TABLE: RefCell<Option<HashMap<usize, Block>>> = const { RefCell::new(None) };
+}
+static TRACKED_ALLOCS: AtomicU64 = AtomicU64::new(0);
+static TRACKED_FREES: AtomicU64 = AtomicU64::new(0);
+static PASSTHROUGH: std::sync::atomic::AtomicBool = std::sync::atomic::AtomicBool::new(false);
+
+struct Tracking;
+
+fn pad(align: usize) -> usize {
+    RZ.max(align)
+}
+
+fn set_err(msg: String) {
+    let _ = ERR.try_with(|e| {
+        let mut e = e.borrow_mut();
+        if e.is_none() {
+            *e = Some(msg);
+        }
+    });
+}
+
+unsafe fn check_zones(user: usize, b: &Block) -> bool {
+    let p = pad(b.align);
+    let base = (user - p) as *const u8;
+    for i in 0..p {
+        if *base.add(i) != RZ_BYTE {
+            return false;
+        }
+    }
+    let tail = (user + b.size) as *const u8;
+    for i in 0..RZ {
+        if *tail.add(i) != RZ_BYTE {
+            return false;
+        }
+    }
+    true
+}
+
+unsafe impl GlobalAlloc for Tracking {
+    unsafe fn alloc(&self, l: Layout) -> *mut u8 {
+        if PASSTHROUGH.load(Ordering::Relaxed) || BUSY.try_with(|b| b.get()).unwrap_or(true) || !TRACK.try_with(|t| t.get()).unwrap_or(false) {
+            return System.alloc(l);
+        }
+        let _ = BUSY.try_with(|b| b.set(true));
+        let p = pad(l.align());
+        let total = l.size() + p + RZ;
+        let base = System.alloc(Layout::from_size_align_unchecked(total, l.align()));
+        if base.is_null() {
+            let _ = BUSY.try_with(|b| b.set(false));
+            return base;
+        }
+        std::ptr::write_bytes(base, RZ_BYTE, p);
+        std::ptr::write_bytes(base.add(p), 0xCD, l.size());
+        std::ptr::write_bytes(base.add(p + l.size()), RZ_BYTE, RZ);
+        let user = base.add(p);
+        let _ = TABLE.try_with(|t| {
+            t.borrow_mut().get_or_insert_with(HashMap::new).insert(
+                user as usize,
+                Block {
+                    size: l.size(),
+                    align: l.align(),
+                    freed: false,
+                },
+            );
+        });
+        TRACKED_ALLOCS.fetch_add(1, Ordering::Relaxed);
+        let _ = BUSY.try_with(|b| b.set(false));
+        user
+    }
+
+    unsafe fn dealloc(&self, ptr: *mut u8, l: Layout) {
+        if PASSTHROUGH.load(Ordering::Relaxed) || BUSY.try_with(|b| b.get()).unwrap_or(true) {
+            return System.dealloc(ptr, l);
+        }
+        let _ = BUSY.try_with(|b| b.set(true));
+        let mut handled = false;
+        let _ = TABLE.try_with(|t| {
+            if let Some(tab) = t.borrow_mut().as_mut() {
+                if let Some(b) = tab.get_mut(&(ptr as usize)) {
+                    handled = true;
+                    if b.freed {
+                        set_err(format!("double free of block {:#x} (size {})", ptr as usize, b.size));
+                    } else {
+                        if b.size != l.size() || b.align != l.align() {
+                            set_err(format!(
+                                "free with wrong layout: allocated ({},{}) freed ({},{})",
+                                b.size,
+                                b.align,
+                                l.size(),
+                                l.align()
+                            ));
+                        }
+                        if !check_zones(ptr as usize, b) {
+                            set_err(format!("red zone of block size {} overwritten (seen at free)", b.size));
+                        }
+                        std::ptr::write_bytes(ptr, POISON, b.size);
+                        b.freed = true;
+                        TRACKED_FREES.fetch_add(1, Ordering::Relaxed);
+                    }
+                }
+            }
+        });
+        let _ = BUSY.try_with(|b| b.set(false));
+        if !handled {
+            System.dealloc(ptr, l);
+        }
+    }
+
+    unsafe fn realloc(&self, ptr: *mut u8, l: Layout, new_size: usize) -> *mut u8 {
+        if PASSTHROUGH.load(Ordering::Relaxed) || BUSY.try_with(|b| b.get()).unwrap_or(true) {
+            return System.realloc(ptr, l, new_size);
+        }
+        let tracked = TABLE
+            .try_with(|t| {
+                t.borrow()
+                    .as_ref()
+                    .map(|tab| tab.contains_key(&(ptr as usize)))
+                    .unwrap_or(false)
+            })
+            .unwrap_or(false);
+        if !tracked && !TRACK.try_with(|t| t.get()).unwrap_or(false) {
+            return System.realloc(ptr, l, new_size);
+        }
+        let nl = Layout::from_size_align_unchecked(new_size, l.align());
+        let np = self.alloc(nl);
+        if !np.is_null() {
+            std::ptr::copy_nonoverlapping(ptr, np, l.size().min(new_size));
+            self.dealloc(ptr, l);
+        }
+        np
+    }
+}
+
+#[global_allocator]
+static GLOBAL: Tracking = Tracking;
+
+struct AllocMonitor;
+impl Monitor for AllocMonitor {
+    fn begin(&self) {
+        ERR.with(|e| *e.borrow_mut() = None);
+    }
+    fn enter(&self) {
+        TRACK.with(|t| t.set(true));
+    }
+    fn leave(&self) {
+        TRACK.with(|t| t.set(false));
+    }
+    fn after_op(&self) -> Option<String> {
+        BUSY.with(|b| b.set(true));
+        let mut err = ERR.with(|e| e.borrow_mut().take());
+        TABLE.with(|t| {
+            if let Some(tab) = t.borrow().as_ref() {
+                for (&u, b) in tab.iter() {
+                    unsafe {
+                        if !check_zones(u, b) {
+                            err.get_or_insert(format!("red zone of block size {} overwritten", b.size));
+                        }
+                        if b.freed {
+                            let p = u as *const u8;
+                            for i in 0..b.size {
+                                if *p.add(i) != POISON {
+                                    err.get_or_insert(format!("write after free into block size {}", b.size));
+                                    break;
+                                }
+                            }
+                        }
+                    }
+                }
+            }
+        });
+        BUSY.with(|b| b.set(false));
+        err
+    }
+    fn end(&self) -> Option<String> {
+        let mut err = self.after_op();
+        BUSY.with(|b| b.set(true));
+        TABLE.with(|t| {
+            if let Some(tab) = t.borrow_mut().as_mut() {
+                let mut leaked = 0usize;
+                let mut leaked_size = 0usize;
+                for (&u, b) in tab.iter() {
+                    if !b.freed {
+                        // panic payloads etc. are freed by the harness outside
+                        // tracking; anything still live here after the pool is
+                        // dropped was allocated inside a tendril call
+                        leaked += 1;
+                        leaked_size = b.size;
+                    }
+                    unsafe {
+                        let p = pad(b.align);
+                        System.dealloc(
+                            (u - p) as *mut u8,
+                            Layout::from_size_align_unchecked(b.size + p + RZ, b.align),
+                        );
+                    }
+                }
+                tab.clear();
+                if leaked > 0 {
+                    err.get_or_insert(format!("{leaked} tendril block(s) never freed (e.g. size {leaked_size})"));
+                }
+            }
+        });
+        BUSY.with(|b| b.set(false));
+        err
+    }
+}
+
+fn main() {
+    let args: Vec<String> = std::env::args().collect();
+    if args.len() < 3 {
+        machinery("usage: vfalloc C12 quick|thorough|--replay <file>|--passthrough <depth>");
+    }
+    quiet_panics();
+    if args[2] == "--replay-witness" {
+        let mut ctx = Ctx::new("C12", Tier::Quick);
+        ctx.replay_mode = true;
+        let w = args[3].clone();
+        c11::replay_with(&ctx, &w, &AllocMonitor);
+        std::process::exit(if ctx.violations() > 0 { 1 } else { 0 });
+    }
+    if args[2] == "--passthrough" {
+        // for valgrind: same histories, system allocator, single thread
+        PASSTHROUGH.store(true, Ordering::Relaxed);
+        let depth: usize = args[3].parse().unwrap();
+        rayon::ThreadPoolBuilder::new().num_threads(1).build_global().unwrap();
+        let mut ctx = Ctx::new("C12", Tier::Thorough);
+        ctx.replay_mode = true;
+        let (_jobs, cnt) = c11::run_all(&ctx, &c11::NoMonitor, depth, depth.min(2), depth.min(2));
+        println!("passthrough executions={} violations={}", cnt.execs.load(Ordering::Relaxed), ctx.violations());
+        std::process::exit(if ctx.violations() > 0 { 1 } else { 0 });
+    }
+    let tier = match args[2].as_str() {
+        "quick" => Tier::Quick,
+        "thorough" => Tier::Thorough,
+        _ => machinery("tier"),
+    };
+    let ctx = Ctx::new("C12", tier);
+    let (depth, wdepth, small) = tier.pick((3, 3, 3), (4, 3, 3));
+    let (jobs, cnt) = c11::run_all(&ctx, &AllocMonitor, depth, wdepth, small);
+    let allocs = TRACKED_ALLOCS.load(Ordering::Relaxed);
+    let frees = TRACKED_FREES.load(Ordering::Relaxed);
+    if allocs < 1000 {
+        machinery("vacuous: tracking allocator saw almost no tendril allocations");
+    }
+    // hand the sequential result to the wrapper script (which adds loom/valgrind parts)
+    let part = json!({
+        "evaluations": cnt.execs.load(Ordering::Relaxed),
+        "operations_executed": cnt.ops.load(Ordering::Relaxed),
+        "tracked_allocations": allocs,
+        "tracked_frees": frees,
+        "distinct_shapes": cnt.shapes.lock().unwrap().len(),
+        "jobs": jobs,
+        "violations": ctx.violations(),
+        "wall_s": ctx.elapsed(),
+    });
+    let out = args.get(3).cloned().unwrap_or_else(|| "/verif/engine/target/c12_seq.json".into());
+    std::fs::write(&out, serde_json::to_string_pretty(&part).unwrap()).unwrap();
+    println!("C12 sequential part: {}", part);
+    std::process::exit(if ctx.violations() > 0 { 1 } else { 0 });
+}
